@@ -55,7 +55,9 @@ PROP = dict(
         "owns the rest) with $/# tagged unions; tlb_schema_sound is the CONSISTENCY of two translations of a declaration "
         "written by the same author (goBody: descriptor the generated struct must have; specBody: C04 schema language) "
         "through the codec model, for declarations that refer to EARLIER types only (no recursive TL-B types, no "
-        "nested Maybe); tlb_schema_roundtrip holds on the decidable sub-class okRT = ok AND C03's descriptor check envOk "
+        "nested Maybe); tlb_schema_roundtrip is C03's decode_encode re-exported at the environment S.goEnv (its only "
+        "C09-specific content: goBody yields struct / sum bodies that are well formed as cell contents) and holds on "
+        "the decidable sub-class okRT = ok AND C03's descriptor check envOk "
         "(prefix-free tags, cell-consuming types last, ...): ok alone does not imply it (kernel-checked examples "
         "exOverlap `$0`/`$01`, exCellFirst `Cell` before a field); okRT is evaluated per schema (op tlbs.ok), not "
         "characterised in terms of the TL-B text",
@@ -67,8 +69,12 @@ PROP = dict(
     level_text="TRANSLATION VALIDATION of the two compilers over sampled schemas, against a specification whose sanity "
                "is proved. Proved (about the specification Tl.encode/Tl.decode, for every well-formed schema, by "
                "functional induction on the encoder): tl_decode_encode (with arbitrary trailing bytes), tl_prefix_free, "
-               "tl_encode_defined_iff_typed, tl_layout_optional / tl_layout_vector / tl_layout_le; the tl_spec_* "
-               "theorems only restate its definition in bytes. Proved about the TL compiler's OUTPUT (as extracted by "
+               "tl_encode_defined_iff_typed, tl_layout_optional / tl_layout_vector / tl_layout_le, tl_decode_malformed (what "
+               "the decoder refuses / tolerates: prefix 255, unknown Bool id, padding content, non-canonical escape form - "
+               "pinned on the compiled programs by encodings with one malformed leaf); the tl_spec_* "
+               "theorems only restate its definition in bytes. The step semantics behind steps_eq_schema writes and reads "
+               "the builtin leaves with the specification's own functions: it covers field order, guards, bits, tags and "
+               "ids, not the byte layout of tl.Marshal / tl.Unmarshal on builtin types (executed ops only). Proved about the TL compiler's OUTPUT (as extracted by "
                "X7): steps_eq_schema, method_steps_eq_schema, client_steps_eq_schema - conditional on the decidable "
                "matcher agreeAll, which is EVALUATED per sampled program by the compiled driver (op tlc.bind) and by "
                "the kernel for the shipped schema (C10); so per sampled program the codecs are covered for all values, "
